@@ -131,9 +131,39 @@ def place_task(r):
     return rs, [whole.with_parts(parts, None, bases), whole]
 
 
+def chain_task(r):
+    """a chained string whose head and tail are separated by a block boundary in such a way that their offsets INSIDE their blocks
+    look like a legal chain (the defect fixed by /repo 173a2ea combined them), or kept together in one block (must equal
+    yr_rules_scan_mem); plus a second, complete chain elsewhere"""
+    h = r.randint(0, 12)
+    gap = r.randint(8, 40)
+    t = h + 4 + gap
+    size = t + 4 + r.randint(8, 40)
+    b = bytearray(b"." * (size + 330))
+    b[h:h + 4] = c10.H1; b[t:t + 4] = c10.T1
+    h2 = size + 4
+    b[h2:h2 + 4] = c10.H2; b[h2 + 4 + 260:h2 + 8 + 260] = c10.T2
+    data = bytes(b)
+    rules = [dict(ns=0, flags="", strings=[c10.CHAINS[0]], cond=r.choice([("str", 0), ("cnt", 0, 1), ("in", 0, 0, 40)])),
+             dict(ns=0, flags="", strings=[c10.CHAINS[1]], cond=("str", 2)),
+             dict(ns=0, flags="", strings=[], cond=("fseq", len(data)))]
+    rs = sl.RuleSet(rules, [])
+    if r.random() < 0.7:
+        # cut between head and tail, the tail's in-block offset not smaller than the end of the head's in-block offset
+        c = r.randint(h + 4, max(h + 4, t - (h + 4)))
+    else:
+        c = r.choice([r.randint(t + 4, size), r.randint(0, h)]) or 1          # the first chain stays whole
+    cuts = sorted({c, r.choice([size, size + 2, h2 + 100])} - {0, len(data)})
+    parts = [y - x for x, y in zip([0] + cuts, cuts + [len(data)])]
+    return rs, [sl.Input(data, parts), sl.Input(data), sl.Input(data[::-1] + b"hello")]
+
+
 def gen_tasks(r, tier):
     tasks = []       # (kind, ruleset, inputs, flags, extra field)
     nep, nblk, nev, npl = (40, 70, 10, 60) if tier == "quick" else (1500, 3000, 350, 2500)
+    for _ in range(25 if tier == "quick" else 800):      # chained strings and block boundaries
+        rs, ins = chain_task(r)
+        tasks.append(("chain", rs, ins, r.choice(c10.FLAGS), "masks=0:%d:1:2" % min(len(ins[0].parts) + 1, 5)))
     for _ in range(nep):
         ins = gen_inputs(r)
         i = r.randrange(len(ins))
@@ -173,6 +203,10 @@ def task_line(cid, t):
     if extra.startswith("masks=") and extra.count(":") >= 2:
         # sw=1: the partition cuts nothing, so it must agree with yr_rules_scan_mem of the same bytes (decided here, not by the model)
         extra += " sw=%d" % (1 if ins[0].same_as_whole(rs) else 0)
+        if getattr(rs, "chains", None):
+            # spec decision for chained strings: exactly the chains whose pieces all lie in one block (independent Python port)
+            ce = sorted({(si, o, ln) for base, b, a in ins[0].blocks() if a for o, si, ln in sl.chain_matches(rs, b, base)})
+            extra += " ce=" + (",".join("s%d@%d:%d" % x for x in ce) or "-")
     return sl.case_line(cid, rs, ins, flags, 0, 1000000, []).replace(" ops= ", " ") + " " + extra
 
 
@@ -328,6 +362,17 @@ def run_body(chk, lres, b, tier, replay, scratch):
                 chk.violation("whole_%s.json" % cid, dict(base, kind="multi-block scan differs from yr_rules_scan_mem of the same bytes "
                               "(no occurrence, integer read or header is cut by the partition)", implementation=classes[int(cmap[0], 36)],
                               yr_rules_scan_mem=wtrace, partition=l.split(" in=", 1)[1].split(" ", 1)[0].split(";")[0].split("~")[1]))
+                nv += 1; found = True
+        # chained strings: exactly the occurrences whose pieces lie in one block are reported (when every rule is reported)
+        if " ce=" in l and (" fl=0 " in l or " fl=24 " in l) and nv < 10:
+            import re
+            heads = {t.split(":")[0] for t in l.split(" mc=", 1)[1].split(" ", 1)[0].split(",") if t != "-" and t.split(":")[1] == "-1"}
+            want = set(x for x in l.split(" ce=", 1)[1].split(" ", 1)[0].split(",") if x != "-")
+            got = {"s%s@%s:%s" % m for m in re.findall(r"s(\d+)@(\d+):(\d+)", classes[int(cmap[0], 36)]) if m[0] in heads}
+            stats["chain_occurrence_checks"] = stats.get("chain_occurrence_checks", 0) + 1
+            if got != want:
+                chk.violation("chain_%s.json" % cid, dict(base, kind="chained strings: the reported occurrences are not exactly those whose pieces all lie in one block",
+                                                          implementation=sorted(got), expected=sorted(want)))
                 nv += 1; found = True
         # the property itself (2): every subset ends like the uninterrupted run (mask 0)
         ref = cmap[0]
